@@ -23,6 +23,47 @@ use crate::world::{SchedCfg, World};
 
 pub struct C17;
 
+// handshake tier (real worker, real TLS handshakes racing with certificate commands)
+#[path = "c17_hs.rs"]
+pub mod hs;
+#[path = "c17_hsrun.rs"]
+pub mod hsrun;
+#[path = "c17_hsjudge.rs"]
+pub mod hsjudge;
+
+/// one plan in `HS_EVERY` is a handshake-tier plan (a pure function of the seed)
+const HS_EVERY: u64 = 12;
+/// (development knob: C17_HS_EVERY=1 makes every seeded plan a handshake-tier plan, e.g. for sensitivity runs)
+fn hs_every() -> u64 { static E: OnceLock<u64> = OnceLock::new(); *E.get_or_init(|| std::env::var("C17_HS_EVERY").ok().and_then(|s| s.parse().ok()).filter(|n| *n >= 1).unwrap_or(HS_EVERY)) }
+fn is_hs_seed(seed: u64) -> bool { Prng::derive(seed, "c17/tier").below(hs_every()) == 0 }
+fn is_hs_plan(plan: &Value) -> bool { plan.get("tier").and_then(|t| t.as_str()) == Some("handshake") }
+
+fn run_hs(p: &hs::HsPlan, verbose: bool) -> Result<(hsrun::HsOutcome, hsjudge::Verdict), String> {
+    let fx = fixtures()?;
+    let _ = default_der();
+    let old_hook = std::panic::take_hook();
+    std::panic::set_hook(Box::new(|info| { if let Ok(mut g) = LAST_PANIC.lock() { *g = info.to_string(); } }));
+    if let Ok(mut g) = LAST_PANIC.lock() { g.clear(); }
+    let mut o = hsrun::run(p, fx, verbose);
+    std::panic::set_hook(old_hook);
+    if o.panicked.is_some() { let at = LAST_PANIC.lock().map(|g| g.clone()).unwrap_or_default(); if !at.is_empty() { o.panicked = Some(at.replace('\n', " ")); } }
+    let v = hsjudge::judge(p, &o, fx, verbose);
+    Ok((o, v))
+}
+
+fn run_hs_report(plan: &Value) -> RunReport {
+    let p: hs::HsPlan = match serde_json::from_value(plan.clone()) { Ok(p) => p, Err(e) => return RunReport { harness_error: Some(format!("bad handshake plan: {e}")), ..Default::default() } };
+    let (o, v) = match run_hs(&p, false) { Ok(x) => x, Err(e) => return RunReport { harness_error: Some(format!("fixtures: {e}")), ..Default::default() } };
+    let mut t = TraceHash::new();
+    t.mix(o.trace_hash);
+    for h in &v.result_hash { t.mix(*h); }
+    let mut rep = RunReport { seed: p.seed, family: p.family.clone(), violations: v.violations, trace_hash: t.0, stats: o.stats.clone(), summary: hs::summarize(&p), ..Default::default() };
+    rep.nontrivial = v.nontrivial;
+    rep.probes = v.probes;
+    rep.harness_error = v.harness_error;
+    rep
+}
+
 // ------------------------------------------------------------------------------------- fixtures
 
 pub struct Fx {
@@ -871,12 +912,14 @@ fn summarize(p: &Plan) -> String {
 
 impl Property for C17 {
     fn id(&self) -> &'static str { "C17" }
-    fn runs(&self, tier: Tier) -> u64 { match tier { Tier::Quick => 120_000, Tier::Thorough => 3_000_000 } }
+    fn runs(&self, tier: Tier) -> u64 { match tier { Tier::Quick => 110_000, Tier::Thorough => 3_000_000 } }
     fn gen_plan(&self, seed: u64, tier: Tier) -> Value {
+        if is_hs_seed(seed) { return match hs::generate(seed, tier) { Ok(p) => serde_json::to_value(p).unwrap(), Err(e) => serde_json::json!({"error": e}) }; }
         match generate(seed, tier) { Ok(p) => serde_json::to_value(p).unwrap(), Err(e) => serde_json::json!({"error": e}) }
     }
     fn run_plan(&self, plan: &Value) -> RunReport {
         if let Some(e) = plan.get("error") { return RunReport { harness_error: Some(format!("fixtures: {e}")), ..Default::default() }; }
+        if is_hs_plan(plan) { return run_hs_report(plan); }
         let p: Plan = match serde_json::from_value(plan.clone()) { Ok(p) => p, Err(e) => return RunReport { harness_error: Some(format!("bad plan: {e}")), ..Default::default() } };
         let o = match run(&p, false) { Ok(o) => o, Err(e) => return RunReport { harness_error: Some(format!("fixtures: {e}")), ..Default::default() } };
         let mut rep = RunReport { seed: p.seed, family: p.family.clone(), violations: o.violations, trace_hash: o.trace, summary: summarize(&p), ..Default::default() };
@@ -885,6 +928,7 @@ impl Property for C17 {
         rep
     }
     fn shrink(&self, plan: &Value) -> Vec<Value> {
+        if is_hs_plan(plan) { return serde_json::from_value::<hs::HsPlan>(plan.clone()).map(|p| hs::shrink(&p).into_iter().map(|q| serde_json::to_value(q).unwrap()).collect()).unwrap_or_default(); }
         let Ok(p) = serde_json::from_value::<Plan>(plan.clone()) else { return vec![] };
         let mut out: Vec<Plan> = Vec::new();
         // drop the tail, then single operations
@@ -948,24 +992,31 @@ impl Property for C17 {
         plans
     }
     fn debug_plan(&self, plan: &Value) -> String {
+        if is_hs_plan(plan) {
+            let Ok(p) = serde_json::from_value::<hs::HsPlan>(plan.clone()) else { return "bad handshake plan".into() };
+            return match run_hs(&p, true) { Ok((o, v)) => format!("{}\n{}\n{}\nharness_error: {:?}\nviolations: {:#?}", hs::summarize(&p), if std::env::var("C17_WORLD_LOG").is_ok() { o.log.join("\n") } else { String::new() }, v.log.join("\n"), v.harness_error, v.violations), Err(e) => e };
+        }
         let Ok(p) = serde_json::from_value::<Plan>(plan.clone()) else { return "bad plan".into() };
         match run(&p, true) { Ok(o) => format!("{}\n{}\nviolations: {:#?}", summarize(&p), o.log.join("\n"), o.violations), Err(e) => e }
     }
     fn descr(&self) -> Descr {
         Descr {
             level: "exploration",
-            rule: "seeded histories (swarm: family, certificate pool of 2-11 fixtures, operation mix, names/expiry overrides, fingerprint spellings, World hash seed) of add/remove/replace on a real CertificateResolver; after every operation 15 hosts x 5 spellings are looked up through domain_lookup (both wildcard modes), names_for_sni, get_certificate and ResolvesServerCert::resolve (parsed ClientHello) and compared with the reference model; a run is non-trivial when >=1 certificate was loaded and >=1 probe was answered with a loaded certificate; distinct = distinct hashes over operations, results and all lookup answers; checking stops at the first diverging operation; plus an exhaustive part: every load order x every removal order of every 3-subset (thorough: and 4-subset) of nine overlapping certificates",
+            rule: "MODEL TIER (11 plans in 12 and the exhaustive part): seeded histories (swarm: family, certificate pool of 2-11 fixtures, operation mix, names/expiry overrides, fingerprint spellings, World hash seed) of add/remove/replace on a real CertificateResolver; after every operation 15 hosts x 5 spellings are looked up through domain_lookup (both wildcard modes), names_for_sni, get_certificate and ResolvesServerCert::resolve (parsed ClientHello) and compared with the reference model; a run is non-trivial when >=1 certificate was loaded and >=1 probe was answered with a loaded certificate; distinct = distinct hashes over operations, results and all lookup answers; checking stops at the first diverging operation; plus an exhaustive part: every load order x every removal order of every 3-subset (thorough: and 4-subset) of nine overlapping certificates. HANDSHAKE TIER (1 seeded plan in 12, families hs_*): a real worker (Server::run under the simulator) with 1-2 HTTPS listeners, 0-4 initial fixture certificates per listener and a seeded script of 1-6 (thorough 1-12) AddCertificate / RemoveCertificate / ReplaceCertificate commands (names/expiry overrides, occasionally invalid PEM, unknown fingerprints, AddHttpsFrontend / RemoveHttpsFrontend) sent by the tier's own master actor at seeded virtual times, fragmented down to 17-byte writes, interleaved with 3-9 (thorough 3-12) TLS clients (rustls client TLS 1.2/1.3 that records the presented chain, or a raw TLS 1.2 ClientHello with verbatim SNI bytes read up to the Certificate message) whose SNI is an exact / wildcard-covered / uncovered name in canonical, upper-case, mixed-case, trailing-dot spelling or absent, started at seeded times or gated on 'command k written / acknowledged'; ClientHellos are optionally split so that a command is sent after the first part and the rest follows its acknowledgement, and the client's Finished flight is optionally held back until a command sent after the certificate was seen is acknowledged; 30-85% of the rustls clients then send one H1 or H2 request whose authority is / is not covered. Every command interval [stamp before first byte written, stamp when the final answer was read] and every handshake interval [stamp before connect, stamp when the certificate was seen] is taken from the world's global event counter; the served certificate must be the model's answer for the canonicalised SNI in the listener state after SOME command prefix p with (#commands acknowledged before the handshake started) <= p <= (#commands whose sending began before the certificate was seen) (commands are FIFO on one channel, results OK/FAILURE as answered and checked against the model). Classes: wrong_cert_served, removed_cert_served, other_listener_cert_served, unloaded_cert_served, handshake_failed(_during_replace), handshake_stalled, op_result, command_not_answered, strict_sni_not_enforced / strict_sni_false_reject (421 expected iff strict binding is on, an SNI was sent and the authority is covered by no name the served certificate was loaded with; default certificate served: 421 required only when authority != SNI), plus the model tier's keys for defects it already recorded (panic|name_with_slash, store_disagreement|replace_self_unloaded, noncanonical_cert_name_ignored). A handshake-tier run is non-trivial when >=1 runtime command was answered and >=1 handshake outcome was judged against the model; distinct = world trace hash (every syscall, scheduling decision, TLS byte) mixed with command results, served certificates and statuses",
             assumptions: vec![
                 "certificate names and SNI compare case-insensitively, a trailing dot is insignificant (RFC 6125 6.4.1 / RFC 4343); a wildcard covers exactly one left-most label",
                 "adding a fingerprint that is already loaded is a no-op (doc comment of add_certificate), including its names/expiry overrides",
                 "non-canonical spellings given to the raw lookup functions (upper case, trailing dot, port suffix) may be normalised, taken literally or answered with no certificate",
                 "release semantics (debug assertions off)",
                 "fingerprints, names and notAfter of the fixtures come from openssl (manifest.json), not from sozu",
+                "handshake tier: commands on one channel take effect in sending order, each atomically between its first byte being written and its answer being read; a certificate is chosen between the client's connect and the moment the client sees it",
+                "handshake tier: 'the listener's default certificate' is the built-in lib/assets/certificate.pem for every listener (the worker never consults HttpsListenerConfig.certificate); a ClientHello without SNI must be served it (property text, doc/configure.md 'Default certificate ... (without SNI)')",
+                "handshake tier: a trailing-dot SNI (RFC 6066 forbids it) may be refused or treated as the same host, but not answered with the default certificate when a loaded certificate covers the host; with the default certificate served and authority == SNI both 421 and a routed answer are accepted",
             ],
-            real: vec!["sozu_lib::tls::CertificateResolver / MutexCertificateResolver (add, remove, replace, domain_lookup, names_for_sni, get_certificate, ResolvesServerCert::resolve)", "sozu_lib::router::pattern_trie::TrieNode", "sozu_command_lib::certificate (PEM/X.509 parsing, names, fingerprints)", "rustls Acceptor ClientHello parsing and SNI normalisation", "std HashMap with World-seeded hash keys"],
-            stub: vec!["no listener, no sockets: operations are applied directly to the resolver, probes are direct calls", "ClientHello bytes are synthesised by the harness"],
+            real: vec!["sozu_lib::tls::CertificateResolver / MutexCertificateResolver (add, remove, replace, domain_lookup, names_for_sni, get_certificate, ResolvesServerCert::resolve)", "sozu_lib::router::pattern_trie::TrieNode", "sozu_command_lib::certificate (PEM/X.509 parsing, names, fingerprints)", "rustls Acceptor ClientHello parsing and SNI normalisation", "std HashMap with World-seeded hash keys", "handshake tier: sozu_lib::server::Server::run (command channel, notify -> HttpsProxy add/remove/replace_certificate, listener activation, accept), HttpsListener + rustls ServerConfig/ResolvesServerCert in real handshakes (TLS 1.2 and 1.3), https.rs upgrade_handshake (SNI normalisation, tls_cert_names snapshot), mux router strict SNI binding / 421 for H1 and H2 frontends, rustls client (ring) as peer"],
+            stub: vec!["no listener, no sockets: operations are applied directly to the resolver, probes are direct calls", "ClientHello bytes are synthesised by the harness", "handshake tier: master process (own actor with independent framing codec), clock, entropy, AF_UNIX sockets standing in for TCP; no backends (requests end in 404/503/421 answers by sozu); the raw TLS 1.2 client stops after the Certificate message"],
             not_covered: vec![
-                "handshake tier (real TLS handshakes through a running worker while certificates change; Context.tls_cert_names snapshot; strict SNI binding / 421 for uncovered authorities) is a separate tier",
+                "handshake tier: certificates per handshake are observed by the client only (no white-box view of the resolver); one worker, no multi-worker divergence; listener removal / deactivation / UpdateHttpsListener (strict flag patched at runtime) while handshaking; TLS session resumption / tickets (resumption is off in the client); client certificates; ALPN-dependent certificate choice; more than one request per connection (H2 coalescing across SANs after a certificate change); requests that reach a backend",
                 "IDN / punycode names; partial-label wildcards (w*.a.test); '/regex/' certificate names (the trie interprets them as routing regexes)",
                 "certificate/key mismatch, chain validity, expiry relative to the clock (the resolver never looks at the clock)",
                 "the add-before-remove ordering inside one replace_certificate call (the 'window') cannot be observed through a single-threaded API call; only the state after the call is checked",
